@@ -44,8 +44,9 @@ def _mk_const(v):
 
 
 class Fold(ast.NodeTransformer):
-    def __init__(self):
+    def __init__(self, repo=None, f=None):
         self.changed = False
+        self.repo, self.f = repo, f
 
     def visit_FunctionDef(self, n):
         self.generic_visit(n)
@@ -81,6 +82,40 @@ class Fold(ast.NodeTransformer):
 
     def visit_Call(self, n):
         self.generic_visit(n)
+        # (lambda a, b: E)(x, y)  ->  E[a := x, b := y]
+        if isinstance(n.func, ast.Lambda) and not n.keywords and not any(isinstance(a, ast.Starred) for a in n.args):
+            la = n.func.args
+            ps = [p.arg for p in la.posonlyargs + la.args]
+            if not (la.vararg or la.kwarg or la.kwonlyargs or la.defaults) and len(ps) == len(n.args):
+                ok = True
+                for p, a in zip(ps, n.args):
+                    uses = sum(1 for x in ast.walk(n.func.body) if isinstance(x, ast.Name) and x.id == p)
+                    if uses > 1 and not _cheap(a):
+                        ok = False
+                if ok:
+                    self.changed = True
+                    return _Sub(dict(zip(ps, n.args)), {}).visit(copy.deepcopy(n.func.body))
+        # attrgetter("name")(x) -> x.name ; methodcaller("m", a)(x) -> x.m(a)
+        if isinstance(n.func, ast.Call) and U(n.func.func) in ("attrgetter", "operator.attrgetter") and len(n.func.args) == 1 and isinstance(n.func.args[0], ast.Constant) \
+                and isinstance(n.func.args[0].value, str) and n.func.args[0].value.isidentifier() and len(n.args) == 1 and not n.keywords:
+            self.changed = True
+            return ast.copy_location(ast.Attribute(value=n.args[0], attr=n.func.args[0].value, ctx=ast.Load()), n)
+        if isinstance(n.func, ast.Call) and U(n.func.func) in ("methodcaller", "operator.methodcaller") and n.func.args and isinstance(n.func.args[0], ast.Constant) \
+                and isinstance(n.func.args[0].value, str) and len(n.args) == 1 and not n.keywords:
+            self.changed = True
+            return ast.copy_location(ast.Call(func=ast.Attribute(value=n.args[0], attr=n.func.args[0].value, ctx=ast.Load()), args=list(n.func.args[1:]), keywords=list(n.func.keywords)), n)
+        # "text".endswith("xt") / startswith / upper / lower / strip on constants
+        if isinstance(n.func, ast.Attribute) and isinstance(n.func.value, ast.Constant) and isinstance(n.func.value.value, str) and not n.keywords \
+                and n.func.attr in ("endswith", "startswith", "upper", "lower", "strip", "replace", "split", "removesuffix", "removeprefix", "isidentifier"):
+            vals = [_const_value(a) for a in n.args]
+            if all(v[0] for v in vals):
+                try:
+                    r = getattr(n.func.value.value, n.func.attr)(*[v[1] for v in vals])
+                except Exception:
+                    return n
+                if isinstance(r, (str, bool)):
+                    self.changed = True
+                    return ast.copy_location(ast.Constant(value=r), n)
         # "fmt {}".format(const) / str(const)
         if isinstance(n.func, ast.Attribute) and n.func.attr == "format" and isinstance(n.func.value, ast.Constant) and isinstance(n.func.value.value, str) and not n.keywords:
             vals = [_const_value(a) for a in n.args]
@@ -98,9 +133,15 @@ class Fold(ast.NodeTransformer):
         if len(n.ops) != 1:
             return n
         a, b = _const_value(n.left), _const_value(n.comparators[0])
+        op = n.ops[0]
+        if a[0] and not b[0] and isinstance(op, (ast.In, ast.NotIn)) and self.repo is not None and isinstance(n.comparators[0], (ast.Name, ast.Attribute)):
+            rows = _table(self.repo, self.f, n.comparators[0])          # membership in a module / class level constant table
+            if rows is not None:
+                vals = [_const_value(r) for r in rows]
+                if all(v[0] for v in vals):
+                    b = (True, tuple(v[1] for v in vals))
         if not (a[0] and b[0]):
             return n
-        op = n.ops[0]
         try:
             if isinstance(op, ast.Eq):
                 v = a[1] == b[1]
@@ -189,6 +230,61 @@ def fold_if_statements(stmts):
             continue
         out.append(st)
     return out, changed
+
+
+def propagate_constant_locals(fnode):
+    """a local bound exactly once to a constant (str / int / bool / None) is replaced by the constant where it is read"""
+    counts = {}
+    vals = {}
+    for n in walk_own(fnode):
+        tg = []
+        if isinstance(n, ast.Assign):
+            tg = n.targets
+        elif isinstance(n, (ast.AugAssign, ast.AnnAssign, ast.For)):
+            tg = [n.target]
+        elif isinstance(n, (ast.With,)):
+            tg = [i.optional_vars for i in n.items if i.optional_vars is not None]
+        elif isinstance(n, ast.comprehension):
+            tg = [n.target]
+        for t in tg:
+            for x in ast.walk(t):
+                if isinstance(x, ast.Name) and isinstance(x.ctx, ast.Store):
+                    counts[x.id] = counts.get(x.id, 0) + 1
+        if isinstance(n, ast.Assign) and len(n.targets) == 1 and isinstance(n.targets[0], ast.Name) and isinstance(n.value, ast.Constant) \
+                and isinstance(n.value.value, (str, int, bool, type(None))) and not isinstance(n.value.value, float):
+            vals[n.targets[0].id] = n
+    a = fnode.args
+    params = {p.arg for p in a.posonlyargs + a.args + a.kwonlyargs}
+    use = {k: v for k, v in vals.items() if counts.get(k) == 1 and k not in params and v.value.value is not None}
+    if not use:
+        return False
+    # the definition must come first in source order (straight-line splices guarantee it; loops could read it earlier)
+    class P(ast.NodeTransformer):
+        def visit_FunctionDef(self, n):
+            if n is fnode:
+                self.generic_visit(n)
+            return n
+
+        def visit_Name(self, n):
+            if n.id in use and isinstance(n.ctx, ast.Load):
+                return ast.copy_location(ast.Constant(value=use[n.id].value.value), n)
+            return n
+    P().visit(fnode)
+
+    def strip(stmts):
+        out = []
+        for st in stmts:
+            if any(st is v for v in use.values()):
+                continue
+            for fld in ("body", "orelse", "finalbody"):
+                sub = getattr(st, fld, None)
+                if isinstance(sub, list) and sub and isinstance(sub[0], ast.stmt) and not isinstance(st, (ast.FunctionDef, ast.ClassDef)):
+                    new = strip(sub)
+                    setattr(st, fld, new or ([ast.Pass()] if fld == "body" else []))
+            out.append(st)
+        return out
+    fnode.body = strip(fnode.body)
+    return True
 
 
 # --------------------------------------------------------------------------------------------------- P1 closures
@@ -300,11 +396,65 @@ def _cheap(e):
 
 
 # --------------------------------------------------------------------------------------------------- P2 unrolling
+def eliminate_continues(stmts):
+    """`if c: A; continue` followed by REST  ->  `if c: A else: REST` (recursively); returns None if a `continue` remains"""
+    out = []
+    for i, st in enumerate(stmts):
+        if isinstance(st, ast.Continue):
+            return out if i == len(stmts) - 1 or True else None      # statements after a bare continue are dead
+        if isinstance(st, ast.If):
+            st = copy.copy(st)
+            body = eliminate_continues(st.body)
+            orelse = eliminate_continues(st.orelse)
+            if body is None or orelse is None:
+                return None
+            b_exit = bool(st.body) and _ends_continue(st.body)
+            o_exit = bool(st.orelse) and _ends_continue(st.orelse)
+            rest = stmts[i + 1:]
+            if b_exit and not o_exit and rest:
+                r = eliminate_continues(rest)
+                if r is None:
+                    return None
+                st.body = body or [ast.Pass()]
+                st.orelse = orelse + r
+                out.append(st)
+                return out
+            if o_exit and not b_exit and rest:
+                r = eliminate_continues(rest)
+                if r is None:
+                    return None
+                st.body = body + r
+                st.orelse = orelse or []
+                out.append(st)
+                return out
+            st.body = body or [ast.Pass()]
+            st.orelse = orelse
+            out.append(st)
+            if b_exit and o_exit:
+                return out
+            continue
+        if any(isinstance(x, ast.Continue) for x in ast.walk(st)) and not isinstance(st, (ast.For, ast.While)):
+            return None
+        out.append(st)
+    return out
+
+
+def _ends_continue(body):
+    last = body[-1]
+    if isinstance(last, ast.Continue):
+        return True
+    return isinstance(last, ast.If) and bool(last.orelse) and _ends_continue(last.body) and _ends_continue(last.orelse)
+
+
 def _rows(repo, f, it):
     """rows of a constant iterable expression as lists of per-position value expressions, or None.
     zip(CONST, X) gives (c_i, X[i]); enumerate(CONST) gives (i, c_i)."""
     def table(e):
         if isinstance(e, (ast.Tuple, ast.List)) and e.elts and len(e.elts) <= MAX_ROWS and all(_const(x) for x in e.elts):
+            return list(e.elts)
+        # a display of rows each of which is a display of cheap expressions with at least one constant: (("a", x), ("b", y))
+        if isinstance(e, (ast.Tuple, ast.List)) and e.elts and len(e.elts) <= MAX_ROWS and all(
+                isinstance(r, (ast.Tuple, ast.List)) and r.elts and all(_const(x) or _cheap(x) for x in r.elts) and any(_const(x) for x in r.elts) for r in e.elts):
             return list(e.elts)
         return _table(repo, f, e) if isinstance(e, (ast.Name, ast.Attribute)) else None
     t = table(it)
@@ -368,7 +518,14 @@ def unroll_loops(repo, f, counter):
                 if rows is not None:
                     binds = [_bind_target(st.target, r[0]) for r in rows]
                     # `continue` is supported as the last statement of an if-arm only when the arm is the whole tail: keep simple
-                    if all(b is not None for b in binds) and not any(isinstance(x, ast.Continue) for b in st.body for x in ast.walk(b)):
+                    lbody = st.body
+                    if any(isinstance(x, ast.Continue) for b in st.body for x in ast.walk(b)):
+                        lbody = eliminate_continues([copy.deepcopy(b) for b in st.body])
+                    # names substituted into the body must not be re-bound there (cheap non-constant row values)
+                    row_names = {x.id for r in rows for x in ast.walk(r[0]) if isinstance(x, ast.Name)}
+                    if lbody is not None and all(b is not None for b in binds) and not (row_names & _stored(lbody)):
+                        st = copy.copy(st)
+                        st.body = lbody
                         tnames = set(binds[0])
                         stored = _stored(st.body)
                         locals_ = stored - tnames
@@ -579,6 +736,64 @@ def expand_constant_dicts(fnode):
     return changed
 
 
+# --------------------------------------------------------------------------------------------------- deferred raise
+def undefer_raises(stmts):
+    """problem = None; if A: problem = M1 [elif B: problem = M2 ...]; if problem is not None: raise E(problem)
+       ->  if A: raise E(M1) [elif B: raise E(M2)]            (three consecutive statements of one list)"""
+    changed = False
+    out = []
+    i = 0
+    while i < len(stmts):
+        st = stmts[i]
+        for fld in ("body", "orelse", "finalbody"):
+            sub = getattr(st, fld, None)
+            if isinstance(sub, list) and sub and isinstance(sub[0], ast.stmt) and not isinstance(st, (ast.FunctionDef, ast.ClassDef)):
+                new, ch = undefer_raises(sub)
+                setattr(st, fld, new)
+                changed = changed or ch
+        if i + 2 < len(stmts) and isinstance(st, ast.Assign) and len(st.targets) == 1 and isinstance(st.targets[0], ast.Name) and isinstance(st.value, ast.Constant) and st.value.value is None:
+            v = st.targets[0].id
+            chain, fin = stmts[i + 1], stmts[i + 2]
+            if isinstance(chain, ast.If) and isinstance(fin, ast.If) and not fin.orelse and len(fin.body) == 1 and isinstance(fin.body[0], ast.Raise) \
+                    and U(fin.test).replace(" ", "") in (f"{v}isnotNone", v) and _only_sets(chain, v):
+                exc = fin.body[0]
+                new_chain = _replace_sets(copy.deepcopy(chain), v, exc)
+                if new_chain is not None:
+                    out.append(new_chain)
+                    i += 3
+                    changed = True
+                    continue
+        out.append(st)
+        i += 1
+    return out, changed
+
+
+def _only_sets(iff, v):
+    """every arm of the if/elif chain is exactly `v = <expr>` (no else arm other than a further if)"""
+    n = iff
+    while True:
+        if not (len(n.body) == 1 and isinstance(n.body[0], ast.Assign) and len(n.body[0].targets) == 1 and U(n.body[0].targets[0]) == v):
+            return False
+        if not n.orelse:
+            return True
+        if len(n.orelse) == 1 and isinstance(n.orelse[0], ast.If):
+            n = n.orelse[0]
+            continue
+        return False
+
+
+def _replace_sets(iff, v, exc):
+    n = iff
+    while True:
+        val = n.body[0].value
+        r = copy.deepcopy(exc)
+        r = _Sub({v: val}, {}).visit(r)
+        n.body = [r]
+        if not n.orelse:
+            return iff
+        n = n.orelse[0]
+
+
 # --------------------------------------------------------------------------------------------------- driver
 def has_constant_structure(repo, f):
     """cheap trigger: the function contains a closure, a lambda bound to a name, a loop / comprehension over a constant
@@ -591,6 +806,14 @@ def has_constant_structure(repo, f):
         if isinstance(n, (ast.For, ast.comprehension)) and _rows(repo, f, n.iter) is not None:
             return True
         if isinstance(n, ast.keyword) and n.arg is None and isinstance(n.value, ast.Name):
+            return True
+        if isinstance(n, ast.If) and len(n.body) == 1 and isinstance(n.body[0], ast.Raise) and isinstance(n.test, ast.Compare) and isinstance(n.test.left, ast.Name) \
+                and isinstance(n.test.ops[0], ast.IsNot) and U(n.test.comparators[0]) == "None":
+            return True
+        if isinstance(n, ast.Call) and isinstance(n.func, (ast.Lambda,)):
+            return True
+        if isinstance(n, ast.Compare) and len(n.ops) == 1 and isinstance(n.ops[0], (ast.In, ast.NotIn)) and isinstance(n.left, ast.Constant) \
+                and isinstance(n.comparators[0], (ast.Name, ast.Attribute)) and _table(repo, f, n.comparators[0]) is not None:
             return True
     return False
 
@@ -612,13 +835,21 @@ def partial_evaluate(repo, max_rounds=4):
             if unroll_loops(repo, f, counter):
                 ch = True
                 steps.append("unroll")
-            fo = Fold()
+            if propagate_constant_locals(f.node):
+                ch = True
+                steps.append("constants")
+            fo = Fold(repo, f)
             f.node = fo.visit(f.node)
             body, c2 = fold_if_statements(f.node.body)
             f.node.body = body
             if fo.changed or c2:
                 ch = True
                 steps.append("fold")
+            body, c3 = undefer_raises(f.node.body)
+            f.node.body = body
+            if c3:
+                ch = True
+                steps.append("undefer-raise")
             f.node = _Getattr().visit(f.node)
             if expand_constant_dicts(f.node):
                 ch = True
